@@ -291,6 +291,8 @@ class C19(Check):
         "a missing {% end %} may be reported on any line from the opening tag to the end of file",
     ]
 
+    _named = {}
+
     def partitions(self, tier):
         s_grammars(tier)
         return [(fam, p) for fam in FAMILIES for p in range(NPARTS)]
@@ -326,7 +328,10 @@ class C19(Check):
                 and len(srcs[0][1]) > 40:
             st.sample({"family": fam, "sources": dict(srcs), "output": repr(real[1])})
         if v is not None:
-            sig, small = T.name_violation(w, v[0])
+            key = (v[0], T.world_skeleton(w))
+            if key not in self._named:         # shrink once per structural class
+                self._named[key] = T.name_violation(w, v[0])
+            sig, small = self._named[key]
             v2, exp2, real2 = T.judge(small)
             msg = "%s | %s" % (v2[1] if v2 else v[1], T.describe(small, exp2).replace("\n", " "))
             st.violation(sig, msg[:600], {"world": small, "family": fam})
